@@ -560,6 +560,12 @@ impl<K: EngineKind> Cluster<K> {
 
     /// log signatures of node `id` over its whole held range
     pub fn log_sigs(&self, id: u32) -> Option<(u64, u64, Vec<(u64, u64, u64)>)> {
+        self.log_sigs_tail(id, u64::MAX)
+    }
+
+    /// like `log_sigs` but only the last `tail` entries are read and hashed (first/last still
+    /// describe the whole held range)
+    pub fn log_sigs_tail(&self, id: u32, tail: u64) -> Option<(u64, u64, Vec<(u64, u64, u64)>)> {
         let n = self.node(id)?;
         let mut first = n.raft_log.first_entry_id();
         let mut last = n.raft_log.last_entry_id();
@@ -572,7 +578,8 @@ impl<K: EngineKind> Cluster<K> {
         }
         let mut v = Vec::new();
         if last > 0 {
-            let ents = n.raft_log.get_entries_range(first.max(1)..=last).ok()?;
+            let from = first.max(1).max(last.saturating_sub(tail.saturating_sub(1)));
+            let ents = n.raft_log.get_entries_range(from..=last).ok()?;
             for e in ents {
                 use prost::Message;
                 let h = e.payload.as_ref().map(|p| crate::util::fnv64(&p.encode_to_vec())).unwrap_or(0);
